@@ -421,6 +421,81 @@ func c05Large(c *Ctx) {
 		}
 	})
 	c.SetCount("large_graph_single_operation_cases", cases)
+	// histories on graphs with a hub of 33..60 neighbours: lists that were long are emptied edge by edge (capacity far
+	// above length), then vertices are removed at several positions, edges and vertices added again; every step is
+	// compared with the model, both representations
+	type hist struct {
+		name string
+		n    int
+		ops  []geOp
+	}
+	var hs []hist
+	for _, leaves := range []int{33, 34, 40, 60} {
+		for _, keep := range []int{0, 1, 7, 8, 9, leaves / 4, leaves/4 + 1} {
+			for _, rv := range []int{1, 5, leaves / 2, leaves} {
+				var ops []geOp
+				for v := 1; v <= leaves-keep; v++ { // hub 0 keeps the `keep` highest leaves
+					ops = append(ops, geOp{Op: "RE", I: 0, J: v})
+				}
+				ops = append(ops, geOp{Op: "RV", I: rv}, geOp{Op: "AE", I: 0, J: 2}, geOp{Op: "RV", I: 0}, geOp{Op: "AV", V: []int{3, 1, 0}}, geOp{Op: "AE", I: 1, J: 0}, geOp{Op: "CP"}, geOp{Op: "RV", I: 2})
+				hs = append(hs, hist{fmt.Sprintf("star%d keep %d remove %d", leaves, keep, rv), leaves + 1, ops})
+			}
+		}
+	}
+	var steps int64
+	c.parFor(int64(len(hs)), 1, func(lo, hi int64) {
+		for _, h := range hs[lo:hi] {
+			for _, rep := range []string{"dense", "sparse"} {
+				var edges [][2]int
+				for v := 1; v < h.n; v++ {
+					edges = append(edges, [2]int{0, v})
+				}
+				g, m := geLargeGraph(h.n, edges, rep)
+				var trace []geOp
+				for _, op := range h.ops {
+					trace = append(trace, op)
+					var f *Failure
+					g, m, f = geApplyRaw(g, m, op)
+					atomic.AddInt64(&steps, 1)
+					if f != nil {
+						f.Class = "graph-edit/large-history/" + f.Class[len("graph-edit/"):]
+						f.Kind = "ge-large-history"
+						f.What = fmt.Sprintf("%s, %s, step %d: %s", h.name, rep, len(trace), f.What)
+						f.Replay = geLargeHistory{N: h.n, Edges: edges, Rep: rep, Ops: trace}
+						c.Fail(f)
+						break
+					}
+				}
+			}
+		}
+	})
+	c.Evals(steps)
+	c.Nontrivial(steps)
+	c.SetCount("large_graph_history_steps", steps)
+}
+
+type geLargeHistory struct {
+	N     int      `json:"n"`
+	Edges [][2]int `json:"edges"`
+	Rep   string   `json:"rep"`
+	Ops   []geOp   `json:"ops"`
+}
+
+func replayLargeHistory(raw json.RawMessage) *Failure {
+	var r geLargeHistory
+	if err := json.Unmarshal(raw, &r); err != nil {
+		return &Failure{Class: "replay/bad-file", What: err.Error()}
+	}
+	g, m := geLargeGraph(r.N, r.Edges, r.Rep)
+	for _, op := range r.Ops {
+		var f *Failure
+		g, m, f = geApplyRaw(g, m, op)
+		if f != nil {
+			f.Class = "graph-edit/large-history/" + f.Class[len("graph-edit/"):]
+			return f
+		}
+	}
+	return nil
 }
 
 type geLargeReplay struct {
@@ -727,6 +802,9 @@ func replayC05(kind string, raw json.RawMessage) *Failure {
 	}
 	if kind == "ge-large" {
 		return replayLarge(raw)
+	}
+	if kind == "ge-large-history" {
+		return replayLargeHistory(raw)
 	}
 	if kind != "ge" {
 		return unsupportedKind(kind)
